@@ -376,7 +376,7 @@ outer:
 		}
 
 		utfb := make([]byte, len(b)*4) // worst case
-		for l := 1; l < len(b); l++ {
+		for l := 1; l <= len(b); l++ {
 			s.Lock()
 			s.decoder.Reset()
 			nout, nin, _ := s.decoder.Transform(utfb, b[:l], true)
@@ -384,10 +384,13 @@ outer:
 
 			if nout != 0 {
 				r, _ := utf8.DecodeRune(utfb[:nout])
-				if r != utf8.RuneError {
-					ev := NewEventKey(KeyRune, r, ModNone)
-					s.postEvent(ev)
+				if r == utf8.RuneError {
+					// incomplete multi-byte sequence (legacy decoders
+					// report U+FFFD at EOF): try a longer prefix
+					continue
 				}
+				ev := NewEventKey(KeyRune, r, ModNone)
+				s.postEvent(ev)
 				b = b[nin:]
 				continue outer
 			}
